@@ -73,11 +73,14 @@ def amounts_for(bp):
 class World:
     def __init__(self, ctx, bp=8, qp=2, fee="pctmin", liq="inf", lend="none", npairs=1, props=(), subscribe=True,
                  namounts=2, min_interest="0", margin_req="0.5", vols=None, init=None, sym_amount=False,
-                 pct=None, min_fee=None, vol_limit="25", impact="10", closes=None):
+                 pct=None, min_fee=None, vol_limit="25", impact="10", closes=None, merge_minmax=True,
+                 amount_hi=10 ** 10):
         self.ctx, self.bp, self.qp, self.fee, self.liq, self.lend = ctx, bp, qp, fee, liq, lend
         self.props = set(props)
         self.sym_amount = sym_amount
-        patch_minmax(ctx)
+        self.amount_hi = amount_hi
+        if merge_minmax:
+            patch_minmax(ctx)
         self.d = bs.backtesting_dispatcher()
         self.pairs = [Pair("BTC", "USD"), Pair("ETH", "USD")][:npairs]
         self.symbols = ["USD"] + [p.base_symbol for p in self.pairs]
@@ -107,7 +110,14 @@ class World:
             self.cond = margin.MarginLoanConditions(
                 interest_symbol="USD", interest_percentage=Decimal("7"), interest_period=DAY,
                 min_interest=Decimal(min_interest), margin_requirement=Decimal(margin_req))
-            ls = margin.MarginLoans("USD", default_conditions=self.cond)
+            if lend == "margin_base_only":
+                # lending conditions exist for the base symbols only: borrowing the quote symbol fails with a plain
+                # Error (not NotEnoughBalance) - a rejection coming from a different internal step
+                ls = margin.MarginLoans("USD")
+                for p_ in self.pairs:
+                    ls.set_conditions(p_.base_symbol, self.cond)
+            else:
+                ls = margin.MarginLoans("USD", default_conditions=self.cond)
         self.margin_req = Decimal(margin_req)
         self.e = bex.Exchange(self.d, dict(self.init), liquidity_strategy_factory=lf, fee_strategy=fs,
                               default_pair_info=PairInfo(bp, qp), lending_strategy=ls)
@@ -138,11 +148,16 @@ class World:
         self.last_event_when = None
 
     # ------------------------------------------------------------------ operations
-    def feed_bar(self, name, pair_idx=0, volume=None):
+    def feed_bar(self, name, pair_idx=0, volume=None, ohlc=None):
         ctx = self.ctx
         pair = self.pairs[pair_idx]
-        o, h, l = [ctx.dec("%s_%s" % (name, n), self.qp, lo=1, hi=PRICE_HI) for n in "ohl"]
-        if self.closes is not None:
+        if ohlc is not None:
+            o, h, l, c = [Decimal(x).quantize(Decimal(1).scaleb(-self.qp)) for x in ohlc]
+        else:
+            o, h, l = [ctx.dec("%s_%s" % (name, n), self.qp, lo=1, hi=PRICE_HI) for n in "ohl"]
+        if ohlc is not None:
+            pass
+        elif self.closes is not None:
             # margin scenarios: the close converts balances into the lending quote symbol; a solver-chosen concrete
             # close keeps equity / used margin linear in the remaining symbolic quantities
             c = Decimal(ctx.pick(name + "_closec", self.closes)).quantize(Decimal(1).scaleb(-self.qp))
@@ -168,18 +183,20 @@ class World:
         return b, pre
 
     def place(self, name, kind=None, side=None, pair_idx=0, amount=None, auto_borrow=False, auto_repay=False,
-              on_grid_prices=True):
+              on_grid_prices=True, price=None):
         ctx = self.ctx
         kind = KINDS[ctx.choice(name + "_kind", 4)] if kind is None else kind
         side = [BUY, SELL][ctx.choice(name + "_side", 2)] if side is None else side
         pair = self.pairs[pair_idx]
         if amount is None:
             if self.sym_amount:
-                amount = ctx.dec(name + "_amount", self.bp, lo=1, hi=10 ** 10)
+                amount = ctx.dec(name + "_amount", self.bp, lo=1, hi=self.amount_hi)
             else:
                 amount = ctx.pick(name + "_amtc", self.amounts)
         p1 = p2 = None
-        if kind != "market":
+        if price is not None:
+            p1 = Decimal(price).quantize(Decimal(1).scaleb(-self.qp))
+        elif kind != "market":
             p1 = ctx.dec(name + "_p1", self.qp, lo=1, hi=PRICE_HI)
         if kind == "stop_limit":
             p2 = ctx.dec(name + "_p2", self.qp, lo=1, hi=PRICE_HI)
@@ -503,6 +520,13 @@ class World:
                         ctx.prove(Implies(need > cap - used, dl["base"] == 0),
                                   "C08 market/stop orders needing more than the remaining liquidity are not filled "
                                   "[%s]" % tag)
+                        if st["kind"] == "market" and st["side"] == SELL and self.fee == "none":
+                            # a market sell whose base is on hold and that pays no fee is always funded: if it fits in
+                            # what earlier FILLS left of the bar's liquidity it must be filled
+                            ctx.cover("a funded fill-or-kill order competed for liquidity")
+                            ctx.prove(Implies(need <= cap - used, dl["base"] == need),
+                                      "C08 market/stop orders that fit in the remaining liquidity are filled, funds "
+                                      "permitting [%s]" % tag)
                     used = used + dl["base"]
         # --- bookkeeping for the next step
         for oid in self.order_ids:
